@@ -19,6 +19,7 @@ import Ajson.Proofs.Acyclic
 import Ajson.Proofs.Frame
 import Ajson.Proofs.CloneIso
 import Ajson.Proofs.Sides
+import Ajson.Proofs.CloneSound
 import Ajson.Model.Decode
 import Ajson.Spec.WF
 
@@ -110,6 +111,27 @@ theorem C14_any_history_on_the_copy {h : Heap} (hs : Struct h) (ha : Acyc h) (n 
   refine history_side es _ (fun x => h.size ≤ x) ?_ ?_ hnames m (Nat.not_le.mpr hm)
   · exact fun x hx => ⟨fun q hq => sp.newPar x hx q hq, fun y hy => sp.newKid x hx y hy⟩
   · exact fun x hx => ⟨fun q hq => Nat.not_le.mpr (sp.oldPar x (Nat.not_le.mp hx) q hq), fun y hy => Nat.not_le.mpr (sp.oldKid x (Nat.not_le.mp hx) y hy)⟩
+
+/-- **the copy is a sound tree of its own**: after `Clone()` of any node of any sound acyclic heap the whole heap — the original,
+every other tree in play, and the copy — satisfies the structural invariant again and has no cycles: every node of the copy lists
+its children under distinct keys (dense decimal keys in arrays), every child points back at the node that lists it and carries the
+key or index it is listed under, dirty flags are closed upwards, clean nodes have their source span, and the copy's root has no
+parent. So everything proved for sound heaps (reads, edits, further clones) applies to the copy and to clones of clones. -/
+theorem C14_clone_keeps_the_heap_sound {h : Heap} (hs : Struct h) (ha : Acyc h) (n : Nat) (hn : n < h.size) :
+    Struct (h.clone n).1 ∧ Acyc (h.clone n).1 ∧ h.size < (h.clone n).1.size ∧ ((h.clone n).2 : Nat) = h.size :=
+  clone_sound hs ha n hn
+
+/-- **any history of edits and clones**: every finite sequence of edit requests and `Clone()` calls, each addressed to ANY nodes that
+exist at that moment (originals, copies, copies of copies), leaves a sound acyclic heap -/
+theorem C14_any_history_with_clones (ss : List Step) (h : Heap) (hs : Struct h) (ha : Acyc h) (hv : ValidSteps h ss) :
+    Struct (ss.foldl Step.run h) ∧ Acyc (ss.foldl Step.run h) ∧ h.size ≤ (ss.foldl Step.run h).size :=
+  steps_sound ss h hs ha hv
+
+/-- the hypothesis is satisfiable: clone the root of a two-node tree, then edit the copy's child and clone the copy -/
+example : ValidSteps { nodes := [{ type := .array, children := some [([48], 1)] }, { type := .null, parent := some 0, index := some 0 }] }
+    [.clone 0, .edit (.setNull 3), .clone 2, .edit (.appendArray 2 4)] := by
+  simp only [ValidSteps, Step.names, Edit.names, Step.run, Edit.run]
+  decide
 
 /-- the hypothesis is satisfiable: a two-level tree -/
 example : ∃ h : Heap, SubTree h h.size 0 h.size ∧ 1 < h.size :=
